@@ -845,7 +845,8 @@ export class RegexRuntype extends BaseRuntype {
 
   constructor(metadata: RuntypeMetadata | undefined, regex: RegExp, description: string) {
     super(metadata);
-    this.regex = regex;
+    // a template literal type describes the whole string, not a substring of it
+    this.regex = new RegExp(`^(?:${regex.source})$`, regex.flags.includes("s") ? regex.flags : regex.flags + "s");
     this.description = description;
   }
 
